@@ -249,3 +249,62 @@ Proof.
          (fun b u Hb Hn Hr Hlk => no_loss_bidders l1 c p lk ann l2 b u Hf Hb Hn Hr Hlk Hd)).
 Qed.
 Print Assumptions C15_step_no_loss.
+
+(* ---- composition with C14 (proofs/Compose_topology.v) -----------------------------------------------------------
+   Above, Notifier.Connected / Disconnected and the results of the discovery worker's Connect calls are free
+   events.  In the node they come from the libp2p Service and its peer registry (model/PeerRegistry.v).  The joint
+   machine [Compose_topology.jrun] runs the registry and EMITS the topology's events from the registry's answers:
+     JInbound           handleConnectReq's tail: addPeer, then Connected iff it answered "new"
+                        (C14_connected_iff_registered_now)
+     JDiscoveryConnect  Service.Connect for the worker (isConnected short cut / addPeer / getPeer test of ad08637):
+                        ConnectDone u (what Connect returned); the worker's AddPeers is C15_gossip_done
+     JOtherConnect      Connect for any other caller (result does not reach the topology)
+     JClosed            the registry's disconnect notifications, as Disconnected events, in the same step
+     JGossip, JDiscoveryConnectFails, JRegistryOnly
+   [revents js] / [tevents js] are the registry history and the topology history of a joint history js.  No other
+   caller of Connected / Disconnected / AddPeers exists in pkg/ (and none in the machine: AddPeers from outside is
+   never emitted).  Non-vacuity: Compose_topology.ex_joint. *)
+From MevVerif Require model.PeerRegistry proofs.Compose_topology.
+
+(* C14 o C15 (C15_view, C14_connected_details, C14_connect_success_registered).  The topology view only holds peers
+   that the registry registered: every (a, r) reported for role r was put there by a joint step -- an inbound
+   handshake whose addPeer answered "new", or a Connect of the discovery worker that returned it -- and at the end
+   of that very step the registry held exactly the record (a, r) for that peer id.
+   What remains outside: the order in which a Disconnected for a peer and a later Connected for the same peer
+   reach the topology is the registry's notification order (C14_last_close, C14_notifications_only_on_close); the
+   joint machine delivers each notification in the step that produced it. *)
+Theorem C15_view_only_registered : forall js a r,
+  PeerRegistry.wf (Compose_topology.revents js) -> r = ROLE_PROVIDER \/ r = ROLE_BIDDER ->
+  In (mkPeer a r) (get_peers r (run (Compose_topology.tevents js))) ->
+  exists pre j post e p pe,
+    js = pre ++ j :: post /\
+    In e (snd (Compose_topology.jemit (PeerRegistry.run (Compose_topology.revents pre)) j)) /\
+    Compose_topology.added_by e = Some (mkPeer a r) /\
+    PeerRegistry.get p (PeerRegistry.overlays (PeerRegistry.run (Compose_topology.revents (pre ++ [j])))) = Some pe /\
+    PeerRegistry.p_addr pe = a /\ PeerRegistry.p_role pe = r /\
+    PeerRegistry.registered (PeerRegistry.run (Compose_topology.revents (pre ++ [j]))) p = true.
+Proof. exact Compose_topology.view_only_registered. Qed.
+Print Assumptions C15_view_only_registered.
+
+(* C14 o C15 (C15_gossip_origin).  The worker's AddPeers(q): q is what Service.Connect returned for the dialled
+   underlay, and Connect returned it only with the registry holding exactly that record under the remote peer id. *)
+Theorem C15_worker_add_registered : forall js pre j post u q,
+  PeerRegistry.wf (Compose_topology.revents js) -> js = pre ++ j :: post ->
+  In (ConnectDone u (Some q)) (snd (Compose_topology.jemit (PeerRegistry.run (Compose_topology.revents pre)) j)) ->
+  exists c pe closed pe',
+    j = Compose_topology.JDiscoveryConnect u c pe closed /\
+    snd (PeerRegistry.connect (PeerRegistry.run (Compose_topology.revents pre)) c pe closed) = Some pe' /\
+    Compose_topology.tpeer pe' = q /\
+    PeerRegistry.get (PeerRegistry.remote c)
+      (PeerRegistry.overlays (PeerRegistry.run (Compose_topology.revents (pre ++ [j])))) = Some pe'.
+Proof. exact Compose_topology.worker_add_registered. Qed.
+Print Assumptions C15_worker_add_registered.
+
+(* A Disconnected reaches the topology only as a registry notification for a peer the registry has just removed. *)
+Theorem C15_disconnected_is_registry_notification : forall js e p,
+  In e (Compose_topology.tevents js) -> e = Disconnected p ->
+  exists pre c post pe, js = pre ++ Compose_topology.JClosed c :: post /\ Compose_topology.tpeer pe = p /\
+    In pe (Compose_topology.new_notes (PeerRegistry.run (Compose_topology.revents pre))
+             (PeerRegistry.step (PeerRegistry.run (Compose_topology.revents pre)) (PeerRegistry.ConnClosed c))).
+Proof. exact Compose_topology.disconnected_is_registry_notification. Qed.
+Print Assumptions C15_disconnected_is_registry_notification.
